@@ -359,6 +359,7 @@ def main(argv=None):
     ap.add_argument('prop', choices=['C16', 'C17', 'selftest'])
     ap.add_argument('--tier', default=os.environ.get('VERIF_TIER') or 'quick', choices=['quick', 'thorough'])
     ap.add_argument('--replay')
+    ap.add_argument('--show', help='print a replay file in readable form and exit')
     ap.add_argument('--a5-root', default='/repo')
     ap.add_argument('--workers', type=int, default=int(os.environ.get('VERIF_WORKERS') or 0) or min(16, os.cpu_count() or 4))
     ap.add_argument('--runs', type=int)
@@ -378,6 +379,9 @@ def main(argv=None):
     if args.prop == 'selftest':
         from . import selftest
         return selftest.main(args)
+
+    if args.show:
+        return show_replay(args.show)
 
     try:
         master = int(os.environ.get('VERIF_SEED') or 0)
@@ -623,6 +627,41 @@ def main(argv=None):
     print('%s held on %d runs (%d distinct non-trivial) in %.0fs; determinism %d/%d%s'
           % (prop, agg.n, agg.distinct_nontrivial(), wall, det['equal'], det['runs'],
              '' if args.no_evidence else '; evidence written'), flush=True)
+    return 0
+
+
+def show_replay(path):
+    """Human-readable rendering of a replay file (no execution)."""
+    from . import canon
+    from .workload import call_repr
+    d = json.load(open(path))
+    v = d.get('violation', {})
+    print('%s %s  tree %s  VERIF_SEED=%s run %s' % (d.get('property'), d.get('kind'), d.get('tree'), d.get('VERIF_SEED'), d.get('run_index')))
+    print('  ' + str(v.get('detail')))
+    spec = d['spec']
+    if 'call' in spec:
+        print('  one call: %s under PYTHONHASHSEED %s' % (call_repr(spec['call'], 200), spec.get('hashseeds')))
+        return 0
+    for c in spec.get('warm', [])[:20]:
+        print('  warm-up: ' + call_repr(c, 120))
+    if len(spec.get('warm', [])) > 20:
+        print('  warm-up: ... %d calls in all' % len(spec['warm']))
+    if spec.get('bulk'):
+        print('  capacity filler: %s' % spec['bulk'])
+    if 'threads' in spec:
+        for t, tc in enumerate(spec['threads']):
+            for c in tc:
+                print('  thread %d: %s' % (t, call_repr(c, 120)))
+        print('  granularity %s, schedule segments (thread, steps): %s' % (spec.get('gran'), spec['plan'].get('segments', spec['plan'])))
+        for sw in d.get('observed', {}).get('switches', [])[:40]:
+            print('    step %s: thread %s -> %s at %s' % (sw[0], sw[1], sw[2], sw[3]))
+    else:
+        for op in spec['ops']:
+            if 'f' in op:
+                extra = ' [%s at interrupt point %s]' % (op['exc'], op['k']) if op['op'] == 'interrupt' else ''
+                print('  op %-3s %-13s %s%s' % (op.get('id'), op['op'], call_repr(op, 120), extra))
+            else:
+                print('  op %-3s %-13s %s' % (op.get('id'), op['op'], {k: x for k, x in op.items() if k not in ('op', 'id')}))
     return 0
 
 
